@@ -161,9 +161,9 @@ func (cfg *Config) paramExp(pe *syntax.ParamExp) (string, error) {
 			strs = cfg.namesByPrefix(pe.Param.Value)
 		case orig.Kind == NameRef:
 			strs = append(strs, orig.Str)
-		case pe.Index != nil && vr.Kind == Indexed:
+		case indexAllElements && pe.Index != nil && vr.Kind == Indexed:
 			strs = vr.indexedKeys()
-		case pe.Index != nil && vr.Kind == Associative:
+		case (nodeLit(pe.Index) == "@" || nodeLit(pe.Index) == "*") && vr.Kind == Associative:
 			strs = slices.Sorted(maps.Keys(vr.Map))
 		case !vr.IsSet():
 			return "", fmt.Errorf("invalid indirect expansion")
